@@ -116,7 +116,7 @@ fn cmd_check(args: &[String]) {
     let seed: u64 = arg_val(args, "--seed").and_then(|s| s.parse().ok()).unwrap_or(1);
     let threads: usize = arg_val(args, "--threads").and_then(|s| s.parse().ok()).unwrap_or(16);
     let out = arg_val(args, "--out").unwrap_or_else(|| "/dev/stdout".to_string());
-    let ctx = run::Ctx { prop: prop.clone(), tier, seed, threads, only_case: None, progress: arg_val(args, "--progress") };
+    let ctx = run::Ctx { prop: prop.clone(), tier, seed, threads, only_case: None, progress: arg_val(args, "--progress"), hang_out: Some(format!("{}.hang", out)) };
     let t0 = std::time::Instant::now();
     match props::dispatch(&ctx) {
         None => {
@@ -139,7 +139,7 @@ fn cmd_replay(args: &[String]) {
     let seed = j.get("seed").and_then(|x| x.as_i64()).unwrap_or(1) as u64;
     let case = j.get("case").and_then(|x| x.as_i64()).unwrap_or(0) as u64;
     let tier = if j.get("tier").and_then(|x| x.as_str()) == Some("thorough") { run::Tier::Thorough } else { run::Tier::Quick };
-    let ctx = run::Ctx { prop: prop.clone(), tier, seed, threads: 1, only_case: Some(case), progress: None };
+    let ctx = run::Ctx { prop: prop.clone(), tier, seed, threads: 1, only_case: Some(case), progress: None, hang_out: None };
     println!("replaying {} case {} (seed {}, tier {:?}); recorded signature: {}", prop, case, seed, tier, j.get("signature").and_then(|x| x.as_str()).unwrap_or("?"));
     match props::dispatch(&ctx) {
         None => {
